@@ -298,6 +298,7 @@ func runC04(c *Ctx) {
 	}
 	runC04Batcher(c)
 	runC04Round4(c)
+	runC04CtorBypass(c)
 	{
 		sub := NewCtx(p, "C06", c.Tier, c.Config)
 		sub.Rule("R6", "DEP", "", 0)
